@@ -357,8 +357,19 @@ def write_work(path, items):
             fh.write(json.dumps(it, separators=(',', ':')) + '\n')
 
 
-def drive_and_judge(run, label, items, families, driver='harness.drivers.d_tree', describe=None):
-    """items: list of {'t':..., 'cfgs': [...]} ; returns number of failing cases reported"""
+def drive_and_judge(run, label, items, families, driver='harness.drivers.d_tree', describe=None, chunk=10000):
+    """items: list of {'t':..., 'cfgs': [...]}; returns the number of cases judged.  Large work lists are processed in chunks so
+    that the cases of one chunk only are held in memory (the thorough tiers used to exhaust it)."""
+    if len(items) <= chunk:
+        return _drive_and_judge(run, label, items, families, driver, describe)
+    n = 0
+    for k in range(0, len(items), chunk):
+        n += _drive_and_judge(run, f'{label}-{k // chunk}', items[k:k + chunk], families, driver, describe)
+    return n
+
+
+def _drive_and_judge(run, label, items, families, driver='harness.drivers.d_tree', describe=None):
+    """one chunk"""
     if not items and 'depth' not in families and 'classobj' not in families:
         return 0
     wd = os.path.join(tla.WORK, f'{run.pid}-{label}')
